@@ -134,7 +134,8 @@ def named_records(quick, rng):
       hb = util.Hex2Bytes(hx)
       hb2 = util.Hex2Bytes('0' * (nb * 2) + hx)
       rec['obs'] = {'roundtrip': back == v, 'minimal': minimal, 'padded_ok': padded == v,
-                    'hex_ok': int.from_bytes(hb, 'big') == v and int.from_bytes(hb2, 'big') == v,
+                    # exact bytes: an odd number of digits gains one leading zero digit, leading zero BYTES are kept
+                    'hex_ok': hb == bytes.fromhex('0' * (len(hx) % 2) + hx) and hb2 == b'\0' * nb + bytes.fromhex('0' * (len(hx) % 2) + hx),
                     'bytes_match_ref': b == art.i2b(v)}
     except Exception as e:  # pylint: disable=broad-except
       rec['raised'] = type(e).__name__
